@@ -4,7 +4,7 @@ import re
 
 from ..core import AnalysisError
 from .. import pyfront as P
-from .. import wattr, rst
+from .. import wattr, rst, gsa
 
 EXPLANATION = ('Tables that must agree are extracted and compared: the documentation (giannotations.rst list-tables), the comment '
                'parser\'s valid_annotations, the consumption sites in MainTransformer reachable from _apply_annotations_param/_return, '
@@ -75,141 +75,145 @@ def check(ctx):
         r1.check(a in cr, 'return-value annotation (%s) consumed' % a, rel, 1,
                  '(%s) is accepted on return values but nothing reachable from _apply_annotations_return looks at it' % a, detail=sorted(cr.get(a, ())))
 
-    # ------------------------------------------------------------------ R2 effect table
+    # ------------------------------------------------------------------ R2 effect table (gated summaries)
     r2 = ctx.rule('R2', 'documented (annotation -> model attribute) rows of the annotation-application functions', floor=25)
-    common = py.func(MT, 'MainTransformer._apply_annotations_param_ret_common')
-    eff = P.effects(common)
-    stores = [e for e in eff if e.kind == 'store']
+    OPAQUE = ('_is_pointer_type', '_get_validate_parameter_name', '_resolve_toplevel', '_resolve', '_get_transfer_default')
+    SP = gsa.summarise(ctx, MT, 'MainTransformer._apply_annotations_param', opaque=OPAQUE)
+    SR = gsa.summarise(ctx, MT, 'MainTransformer._apply_annotations_return', opaque=OPAQUE)
+    fn = SP.func
+    if len(SP.params) < 4:
+        raise AnalysisError('_apply_annotations_param no longer takes (parent, param, tag)')
+    parent, node, tag = SP.P(1), SP.P(2), SP.P(3)
+    N = re.escape(node)
+    TAG = [(r'^%s$' % re.escape(tag), True)]
+    ctx.notes.append('C01 gated summary of _apply_annotations_param: %d effects, helpers inlined: %s' % (len(SP.effects), sorted(SP.inlined)))
 
-    def row(target, value, must=(), mustnot=(), what=None, fn_eff=None, where=None):
-        cands = [e for e in (fn_eff or stores) if e.target == target and (value is None or e.value == value)]
-        good = [e for e in cands if all(e.under(m_, pol) for m_, pol in must) and not any(e.under(m_, pol) for m_, pol in mustnot)]
-        r2.check(bool(good), what or '%s = %s when %s' % (target, value, [m_ for m_, p_ in must]), rel, (cands[0].line if cands else (where or common).lineno),
-                 'no store `%s = %s` under %s (candidates: %s): the annotation is not reflected in the model and hence not in the GIR'
-                 % (target, value, ['%s%s' % ('' if p_ else 'not ', m_) for m_, p_ in must], [repr(c) for c in cands][:3]),
-                 detail=repr(good[0]) if good else None)
+    def line_of(effs, default=None):
+        return effs[0].line if effs else (default or fn).lineno
+
+    def show_(effs):
+        return ['%s = %s if %s' % (e.target, e.value[:60], e.when()[:160]) for e in effs][:4]
+
+    def row(target, value, must, what, S=SP, forbid=(), given=()):
+        """a store target=value exists that needs every `must` atom, is impossible under each `forbid` atom and possible when must+given hold"""
+        cands = gsa.find(S, 'store', target, value)
+        good = [e for e in cands if all(gsa.needs(S, e, m_) for m_ in must) and all(gsa.impossible(S, e, [f_] if isinstance(f_, tuple) else [(f_, 'P')]) for f_ in forbid)
+                and gsa.allowed(S, e, TAG + [(m_, 'P') for m_ in must] + list(given))]
+        r2.check(bool(good), what, rel, line_of(good or cands),
+                 'no store matching `%s = %s` that happens exactly when %s hold%s (candidates: %s): the annotation is not reflected in the model and hence not in the GIR'
+                 % (target, value, list(must), (' and never when %s' % list(forbid)) if forbid else '', show_(cands)), detail=show_(good))
         return good
-    # direction
-    dirs = {}
-    for t, v, st in P.stores_in(common):
-        if isinstance(t, ast.Name) and t.id == 'annotated_direction' and P.src(v) != 'None':
-            g = [x for x in P.guards(st) if x.kind == 'if' and x.polarity]
-            dirs[P.src(v)] = [P.src(x.test) for x in g][-1:] if g else []
-    for ann, const in (('ANN_INOUT', 'ast.PARAM_DIRECTION_INOUT'), ('ANN_OUT', 'ast.PARAM_DIRECTION_OUT'), ('ANN_IN', 'ast.PARAM_DIRECTION_IN')):
-        r2.check(dirs.get(const) == ['%s in annotations' % ann], '(%s) -> direction %s' % (A(ann), const.split('_')[-1].lower()), rel, common.lineno,
-                 '%s is selected under %s, expected `%s in annotations`' % (const, dirs.get(const), ann), detail=dirs.get(const))
-    row('node.direction', 'annotated_direction', must=[('annotated_direction is not None', True)])
-    row('node.caller_allocates', 'caller_allocates', must=[('annotated_direction is not None', True)])
-    ca = dict()
-    for t, v, st in P.stores_in(common):
-        if isinstance(t, ast.Name) and t.id == 'caller_allocates':
-            g = [x.text() for x in P.guards(st) if x.kind == 'if']
-            ca.setdefault(P.src(v), []).append(g)
-    r2.check(any('option == OPT_OUT_CALLER_ALLOCATES' in g for g in ca.get('True', [[]])[0:3] for g in [' '.join(g)]) and
-             any('option == OPT_OUT_CALLEE_ALLOCATES' in ' '.join(g) for g in ca.get('False', [])), '(out caller-allocates|callee-allocates) select caller_allocates',
-             rel, common.lineno, 'caller_allocates assignments: %s' % ca)
-    # nullable / optional / allow-none / not / skip / attributes
-    row('node.nullable', 'True', must=[('ANN_NULLABLE in annotations', True), ('self._is_pointer_type(node, annotations)', True)])
-    row('node.optional', 'True', must=[('ANN_OPTIONAL in annotations', True), ('isinstance(node, ast.Return)', None), ('ast.PARAM_DIRECTION_OUT', None)],
-        what='(optional) only on out/inout parameters')
-    row('node.nullable', 'False', must=[('ANN_NOT in annotations', True)])
-    row('node.not_nullable', 'True', must=[('ANN_NOT in annotations', True)])
-    row('node.skip', 'True', must=[('ANN_SKIP in annotations', True)])
-    row('node.attributes[key]', 'value', must=[('attributes_annotation is not None', True)])
-    row('node.nullable', 'True', must=[('node.type.is_equiv(ast.TYPE_ANY)', True)], what='untyped pointers are nullable by default')
-    # (not) is the final word on nullability: no store of nullable can execute after it
-    from .. import pycfg
-    cfg = pycfg.CFG(common)
-    nots = [e for e in stores if e.target == 'node.nullable' and e.value == 'False' and e.under('ANN_NOT in annotations', True)]
-    later = []
-    if nots:
-        for e in stores:
-            if e.target in ('node.nullable', 'node.not_nullable') and e.stmt is not nots[0].stmt and not e.under('ANN_NOT in annotations', True):
-                if cfg.reaches(nots[0].stmt, e.stmt):
-                    later.append(e)
-    r2.check(nots and not later, '(not nullable) overrides: nothing stores nullable afterwards', rel, nots[0].line if nots else common.lineno,
-             'after the (not) block nullable can still be changed by %s' % [repr(e) for e in later])
+
+    def ann(c):
+        return r'\b%s\b' % c
+    # direction: inout > out > in
+    D = r'^%s\.direction$' % N
+    for spec, const in (([(ann('ANN_INOUT'), True), (ann('ANN_OUT'), True), (ann('ANN_IN'), True)], 'ast.PARAM_DIRECTION_INOUT'),
+                        ([(ann('ANN_INOUT'), False), (ann('ANN_OUT'), True), (ann('ANN_IN'), True)], 'ast.PARAM_DIRECTION_OUT'),
+                        ([(ann('ANN_INOUT'), False), (ann('ANN_OUT'), False), (ann('ANN_IN'), True)], 'ast.PARAM_DIRECTION_IN')):
+        got = gsa.possible(SP, D, TAG + spec)
+        r2.check(got == {const}, '(%s) -> direction %s' % (const.split('_')[-1].lower(), const.split('_')[-1].lower()), rel, line_of(gsa.find(SP, 'store', D)),
+                 'with the annotations %s the stored direction can be %s, expected exactly %s' % ([p_ for p_, v_ in spec if v_], sorted(got), const), detail=sorted(got))
+    none = gsa.possible(SP, D, TAG + [(ann('ANN_INOUT'), False), (ann('ANN_OUT'), False), (ann('ANN_IN'), False)])
+    r2.check(not none, 'no direction annotation: direction untouched', rel, line_of(gsa.find(SP, 'store', D)), 'without (in)/(out)/(inout) the direction may still be set to %s' % sorted(none))
+    CA = r'^%s\.caller_allocates$' % N
+    base = TAG + [(ann('ANN_INOUT'), False), (r'OPT_OUT_CALLER_ALLOCATES', None), (r'OPT_OUT_CALLEE_ALLOCATES', None)]
+    got_t = gsa.possible(SP, CA, TAG + [(ann('ANN_INOUT'), False), (r'OPT_OUT_CALLER_ALLOCATES', True), (r'OPT_OUT_CALLEE_ALLOCATES', False), (ann('ANN_OUT'), True)])
+    got_f = gsa.possible(SP, CA, TAG + [(ann('ANN_INOUT'), False), (r'OPT_OUT_CALLER_ALLOCATES', False), (r'OPT_OUT_CALLEE_ALLOCATES', True), (ann('ANN_OUT'), True)])
+    r2.check(got_t == {'True'} and got_f == {'False'}, '(out caller-allocates|callee-allocates) select caller_allocates', rel, line_of(gsa.find(SP, 'store', CA)),
+             'caller_allocates under (out caller-allocates) can be %s, under (out callee-allocates) %s' % (sorted(got_t), sorted(got_f)), detail=[sorted(got_t), sorted(got_f)])
+    # nullable / optional / allow-none / not / skip / attributes / type
+    PT = r'_is_pointer_type\('
+    row(r'^%s\.nullable$' % N, r'^True$', [ann('ANN_NULLABLE'), PT], '(nullable) -> nullable on pointer types')
+    row(r'^%s\.optional$' % N, r'^True$', [ann('ANN_OPTIONAL')], '(optional) only on out/inout parameters', forbid=[r'isinstance\(%s, ast\.Return\)' % N],
+        given=[(r'PARAM_DIRECTION_OUT', True), (r'isinstance\(%s, ast\.Return\)' % N, False)])
+    opt = [e for e in gsa.find(SP, 'store', r'^%s\.optional$' % N, r'^True$') if gsa.needs(SP, e, ann('ANN_OPTIONAL'))]
+    r2.check(opt and all(gsa.needs(SP, e, r'PARAM_DIRECTION_(OUT|INOUT)') for e in opt), '(optional) needs direction out or inout', rel, line_of(opt),
+             '(optional) is applied when the direction is neither out nor inout: %s' % show_(opt))
+    row(r'^%s\.nullable$' % N, r'^False$', [ann('ANN_NOT')], '(not nullable) -> nullable = False')
+    row(r'^%s\.not_nullable$' % N, r'^True$', [ann('ANN_NOT')], '(not nullable) -> not_nullable = True')
+    row(r'^%s\.skip$' % N, r'^True$', [ann('ANN_SKIP')], '(skip) -> skip')
+    row(r'^%s\.attributes\[' % N, r'', [ann('ANN_ATTRIBUTES')], '(attributes) -> attributes[key] = value')
+    row(r'^%s\.nullable$' % N, r'^True$', [r'is_equiv\(ast\.TYPE_ANY\)'], 'untyped pointers are nullable by default')
+    row(r'^%s\.type$' % N, r'_resolve_toplevel\(.*ANN_TYPE', [ann('ANN_TYPE')], '(type) -> type')
+    # (not) is the final word on nullability
+    fin = gsa.possible(SP, r'^%s\.nullable$' % N, TAG + [(ann('ANN_NOT'), True)])
+    r2.check(fin == {'False'}, '(not nullable) overrides: nothing stores nullable afterwards', rel, line_of(gsa.find(SP, 'store', r'^%s\.nullable$' % N, '^False$')),
+             'with (not nullable) present nullable can end up as %s' % sorted(fin), detail=sorted(fin))
     # transfer
-    tf = py.func(MT, 'MainTransformer._apply_transfer_annotation')
-    teff = P.effects(tf)
-    tst = [e for e in teff if e.kind == 'store' and e.target == 'node.transfer']
-    r2.check(len(tst) == 1 and tst[0].value == 'transfer', 'transfer option stored', rel, tf.lineno, 'node.transfer stores: %s' % [repr(e) for e in tst])
-    fl = [(P.src(v), [g.text() for g in P.guards(st) if g.kind == 'if']) for t, v, st in P.stores_in(tf) if isinstance(t, ast.Name) and t.id == 'transfer']
-    r2.check(('OPT_TRANSFER_NONE', ['transfer == OPT_TRANSFER_FLOATING']) in fl and ('transfer_annotation[0]', []) in fl, '(transfer floating) means none', rel, tf.lineno,
-             'transfer rewrites: %s' % fl, detail=fl)
+    T = r'^%s\.transfer$' % N
+    raw = [e for e in gsa.find(SP, 'store', T, r'ANN_TRANSFER') if gsa.needs(SP, e, ann('ANN_TRANSFER'))]
+    r2.check(bool(raw), 'transfer option stored', rel, line_of(raw), '%s.transfer stores: %s' % (node, show_(gsa.find(SP, 'store', T))))
+    fl = gsa.possible(SP, T, TAG + [(r'== OPT_TRANSFER_FLOATING$', True), (r'== OPT_TRANSFER_\w+$', False), (ann('ANN_TRANSFER'), 'P')], value=r'ANN_TRANSFER|OPT_TRANSFER')
+    r2.check(fl == {'OPT_TRANSFER_NONE'}, '(transfer floating) means none', rel, line_of(raw), 'with (transfer floating) the stored transfer can be %s' % sorted(fl), detail=sorted(fl))
     # arrays
-    af = py.func(MT, 'MainTransformer._apply_annotations_array')
-    aeff = P.effects(af)
-    ast_ = [e for e in aeff if e.kind == 'store']
-    row('container_type.length_param_name', 'paramname', must=[('paramname', True)], fn_eff=ast_, where=af)
-    row('container_type.size', 'int(fixed)', must=[('fixed', True)], fn_eff=ast_, where=af)
-    row('node.type', 'container_type', fn_eff=ast_, where=af)
-    good = row('param.direction', 'node.direction', must=[('paramname', True)], fn_eff=ast_, where=af, what='length parameter follows the array\'s direction')
-    if good:
-        extra = [g for g in good[0].gtexts() if g not in ('length', 'paramname', 'not (isinstance(parent, ast.Compound))')]
-        r2.check(not extra, 'length parameter direction copied for every direction', rel, good[0].line,
+    row(r'\.length_param_name$', r'', [r'OPT_ARRAY_LENGTH'], '(array length=) -> length_param_name')
+    row(r'\.size$', r'^int\(.*OPT_ARRAY_FIXED_SIZE', [r'OPT_ARRAY_FIXED_SIZE'], '(array fixed-size=) -> size')
+    row(r'^%s\.type$' % N, r'^ast\.Array\(', [ann('ANN_ARRAY')], '(array) -> Array type')
+    ld = row(r'get_parameter\(.*\)\.direction$', r'^%s\.direction$' % N, [r'OPT_ARRAY_LENGTH'], 'length parameter follows the array\'s direction')
+    if ld:
+        extra = sorted(set(a_ for e in ld for a_ in gsa.atoms(e.cond) if 'PARAM_DIRECTION' in a_))
+        r2.check(not extra, 'length parameter direction copied for every direction', rel, ld[0].line,
                  'the length parameter takes the array\'s direction only when %s: for the other directions (e.g. an inout array) it keeps its own' % extra, detail=extra)
-    zt = [(e.value, e.gtexts()) for e in ast_ if e.target == 'container_type.zeroterminated']
-    r2.check(('False', ["array_options.get(OPT_ARRAY_ZERO_TERMINATED, '0') == '0'"]) in zt and any(v == 'True' for v, g in zt), '(array zero-terminated=0|1) -> zeroterminated', rel, af.lineno,
-             'zeroterminated stores: %s' % zt, detail=zt)
+    Z = r'\.zeroterminated$'
+    z0 = gsa.possible(SP, Z, TAG + [(r"OPT_ARRAY_ZERO_TERMINATED, '0'\) == '0'", True), (ann('ANN_ARRAY'), True)])
+    z1 = gsa.possible(SP, Z, TAG + [(r"OPT_ARRAY_ZERO_TERMINATED, '0'\) == '0'", False), (r'OPT_ARRAY_ZERO_TERMINATED', True), (ann('ANN_ARRAY'), True)])
+    r2.check(z0 == {'False'} and z1 == {'True'}, '(array zero-terminated=0|1) -> zeroterminated', rel, line_of(gsa.find(SP, 'store', Z)),
+             'zero-terminated=0 gives %s, zero-terminated=1 gives %s' % (sorted(z0), sorted(z1)), detail=[sorted(z0), sorted(z1)])
     # callbacks
-    cf = py.func(MT, 'MainTransformer._apply_annotations_param_callback')
-    ceff = [e for e in P.effects(cf) if e.kind == 'store']
-    row('param.scope', 'scope_annotation[0]', must=[('scope_annotation and len(scope_annotation) == 1', True)], fn_eff=ceff, where=cf)
-    row('param.destroy_name', 'self._get_validate_parameter_name(parent, destroy_annotation[0], param)', fn_eff=ceff, where=cf)
-    row('param.closure_name', 'self._get_validate_parameter_name(parent, closure_annotation[0], param)', fn_eff=ceff, where=cf)
-    row('param.scope', 'ast.PARAM_SCOPE_NOTIFIED', must=[('param.destroy_name is not None', True)], fn_eff=ceff, where=cf, what='(destroy) implies notified scope')
-    gv = py.func(MT, 'MainTransformer._get_validate_parameter_name')
-    r2.check(any(e.kind == 'call' and e.target == 'message.log_node' and 'message.FATAL' in e.value and e.under('param is None', True) for e in P.effects(gv)),
-             'dangling parameter names are fatal', rel, gv.lineno, '_get_validate_parameter_name no longer fails on a name that is not a parameter')
-    # type / element-type
-    row('node.type', 'self._resolve_toplevel(type_annotation[0], node.type, node, parent)', must=[('type_annotation', True)])
-    ef = py.func(MT, 'MainTransformer._apply_annotations_element_type')
-    eeff = [e for e in P.effects(ef) if e.kind == 'store']
-    for tgt in ('node.type.element_type', 'node.type.key_type', 'node.type.value_type'):
-        r2.check(any(e.target == tgt and e.value.startswith('self._resolve(element_type_options[') for e in eeff), '(element-type) -> %s' % tgt.split('.')[-1], rel, ef.lineno,
-                 'no store of %s from the element-type options' % tgt)
+    CB = r'ast\.Callback\)'
+    row(r'\.scope$', r'ANN_SCOPE\)\[0\]$', [ann('ANN_SCOPE'), CB], '(scope) -> scope')
+    row(r'\.destroy_name$', r'_get_validate_parameter_name\(.*ANN_DESTROY', [ann('ANN_DESTROY'), CB], '(destroy) -> destroy_name (validated)')
+    row(r'\.closure_name$', r'_get_validate_parameter_name\(.*ANN_CLOSURE', [ann('ANN_CLOSURE'), CB], '(closure) -> closure_name (validated)')
+    row(r'^%s\.scope$' % N, r'^ast\.PARAM_SCOPE_NOTIFIED$', [ann('ANN_DESTROY')], '(destroy) implies notified scope', forbid=[(r'destroy_name is None$', True)])
+    GV = gsa.summarise(ctx, MT, 'MainTransformer._get_validate_parameter_name')
+    fatal = [e for e in gsa.find(GV, 'call', r'^message\.log_node$') if any('FATAL' in a_ for a_ in e.args)]
+    r2.check(any(gsa.impossible(GV, e, [(r' is None$', False), (r'^@except', False)]) and gsa.allowed(GV, e, [(r' is None$', True), (r'^@except', False)]) for e in fatal), 'dangling parameter names are fatal', rel, line_of(fatal, GV.func),
+             '_get_validate_parameter_name no longer fails on a name that is not a parameter')
+    # element-type
+    for attr in ('element_type', 'key_type', 'value_type'):
+        row(r'^%s\.type\.%s$' % (N, attr), r'_resolve\(.*ANN_ELEMENT_TYPE', [ann('ANN_ELEMENT_TYPE')], '(element-type) -> %s' % attr)
 
     # ------------------------------------------------------------------ R3 warn => not applied, invalid => warned
     r3 = ctx.rule('R3', 'an invalid annotation is warned about and leaves the attribute unchanged', floor=10)
-    # transfer: each `invalid "transfer"` warning is immediately followed by return, and node.transfer is stored after all of them
-    warns = [e for e in teff if e.kind == 'call' and e.target == 'message.warn' and 'invalid "transfer"' in e.value.replace('\\', '')]
-    r3.check(len(warns) == 3, 'three transfer validity rules (floating, container, non-pointer)', rel, tf.lineno, '%d "invalid transfer" warnings found' % len(warns))
-    tcfg = pycfg.CFG(tf)
+    warns = [e for e in gsa.find(SP, 'call', r'^message\.warn$') if 'invalid "transfer"' in e.value.replace('\\', '')]
+    r3.check(len(warns) >= 3, 'three transfer validity rules (floating, container, non-pointer)', rel, line_of(warns), '%d "invalid transfer" warnings found' % len(warns))
+    tstores = [e for e in gsa.find(SP, 'store', T) if '_get_transfer_default' not in e.value]
     for w_ in warns:
-        st = w_.stmt
-        r3.check(not tcfg.reaches(st, tst[0].stmt) if tst else False, 'transfer not stored after warning (line %d)' % 0, rel, w_.line,
-                 'after warning about an invalid transfer annotation the function still stores node.transfer')
-    kinds = [' '.join(w_.gtexts()) for w_ in warns]
-    r3.check(any('OPT_TRANSFER_FLOATING' in k and 'ast.Class, ast.Interface' in k for k in kinds) and any('OPT_TRANSFER_CONTAINER' in k and 'ast.Array, ast.List, ast.Map' in k for k in kinds)
-             and any('self._is_pointer_type(node, annotations)' in k for k in kinds), 'transfer validity conditions', rel, tf.lineno, 'conditions: %s' % kinds)
-    # nullable / optional / allow-none: warning in the else branch of the applying if
-    for ann, attr, cond in (('ANN_NULLABLE', 'node.nullable', 'self._is_pointer_type(node, annotations)'),
-                            ('ANN_OPTIONAL', 'node.optional', 'node.direction in'), ('ANN_ALLOW_NONE', 'node.nullable', 'self._is_pointer_type(node, annotations)')):
-        ws = [e for e in eff if e.kind == 'call' and e.target == 'message.warn' and e.under('%s in annotations' % ann, True)]
-        ok = len(ws) == 1 and ws[0].under(cond, False)
-        r3.check(ok, 'invalid (%s) warned' % A(ann), rel, ws[0].line if ws else common.lineno, 'no warning for an invalid (%s) (guards %s)' % (A(ann), [w_.gtexts() for w_ in ws]))
+        both = [e for e in tstores if gsa.compatible(w_, e)]
+        r3.check(not both, 'transfer not stored after warning', rel, w_.line,
+                 'after warning about an invalid transfer annotation the function still stores %s' % show_(both))
+    kinds = [' '.join(gsa.atoms(w_.cond)) for w_ in warns]
+    r3.check(any('OPT_TRANSFER_FLOATING' in k and 'ast.Class' in k and 'ast.Interface' in k for k in kinds) and any('OPT_TRANSFER_CONTAINER' in k and 'ast.Array' in k and 'ast.List' in k and 'ast.Map' in k for k in kinds)
+             and any('_is_pointer_type(' in k for k in kinds), 'transfer validity conditions', rel, line_of(warns), 'conditions: %s' % [k[:200] for k in kinds])
+    for annc, attr, cond, text in (('ANN_NULLABLE', 'nullable', PT, '"nullable"'), ('ANN_OPTIONAL', 'optional', r'PARAM_DIRECTION_(OUT|INOUT)', '"optional"'),
+                                   ('ANN_ALLOW_NONE', '(nullable|optional)', PT, '"allow-none"')):
+        ws = [e for e in gsa.find(SP, 'call', r'^message\.warn$') if text in e.value and gsa.needs(SP, e, ann(annc))]
+        ok = len(ws) >= 1 and all(gsa.impossible(SP, w_, [(cond, True), (r'isinstance\(%s, ast\.Return\)' % N, False)]) for w_ in ws)
+        r3.check(ok, 'invalid (%s) warned' % A(annc), rel, line_of(ws), 'no warning for an invalid (%s) (conditions %s)' % (A(annc), [w_.when()[:200] for w_ in ws]))
         if ok:
-            applied = [e for e in stores if e.target == attr and e.value == 'True' and e.under('%s in annotations' % ann, True)]
-            r3.check(all(e.under(cond, True) or e.under('node.direction == ast.PARAM_DIRECTION_OUT', True) for e in applied) and applied,
-                     '(%s) applied only where valid' % A(ann), rel, applied[0].line if applied else common.lineno,
-                     '(%s) is applied without its validity condition: %s' % (A(ann), [repr(e) for e in applied]))
+            applied = [e for e in gsa.find(SP, 'store', r'^%s\.%s$' % (N, attr), r'^True$') if gsa.needs(SP, e, ann(annc))]
+            clash = [(w_, e) for w_ in ws for e in applied if gsa.compatible(w_, e)]
+            r3.check(applied and not clash and all(gsa.needs(SP, e, cond) or gsa.needs(SP, e, r'PARAM_DIRECTION_OUT') for e in applied),
+                     '(%s) applied only where valid' % A(annc), rel, line_of(applied),
+                     '(%s) is applied without its validity condition or together with its warning: %s' % (A(annc), show_(applied)))
     # _is_pointer_type: a return value is never a pointer merely because its direction is out
-    ip = py.func(MT, 'MainTransformer._is_pointer_type')
-    first = [n for n in P.walk_no_nested(ip) if isinstance(n, ast.Return) and P.src(n.value) == 'True']
-    g = [x.text() for r_ in first for x in P.guards(r_)]
-    r3.check(any('not isinstance(node, ast.Return)' in t and 'ast.PARAM_DIRECTION_OUT' in t for t in g), 'out-direction shortcut excludes return values', rel, ip.lineno,
+    IP = gsa.summarise(ctx, MT, 'MainTransformer._is_pointer_type')
+    short = [(g, n) for g, n in IP.returns if gsa._unparse(n) == 'True' and any('PARAM_DIRECTION_OUT' in a_ for a_ in gsa.atoms(g))]
+    okp = bool(short) and all(gsa.ev3(g, dict((a_, True) for a_ in gsa.atoms(g) if re.search(r'isinstance\(\w+, ast\.Return\)', a_))) is False for g, n in short)
+    r3.check(okp, 'out-direction shortcut excludes return values', rel, IP.func.lineno,
              '_is_pointer_type treats everything with direction out as a pointer (%s): ast.Return always has direction out, so nullable/transfer on a plain gint '
-             'return value are accepted silently' % g, detail=g)
+             'return value are accepted silently' % [gsa.show(g)[:200] for g, n in short], detail=[gsa.show(g)[:200] for g, n in short])
     # callbacks: scope/destroy/closure on non-callbacks
-    cw = [e for e in P.effects(cf) if e.kind == 'call' and e.target == 'message.warn' and e.under('isinstance(target, ast.Callback)', False)]
-    rets = [n for n in P.walk_no_nested(cf) if isinstance(n, ast.Return) and any(x.text() == 'not isinstance(target, ast.Callback)' for x in P.guards(n))]
-    r3.check(len(cw) == 1 and len(rets) == 1 and 'ANN_SCOPE, ANN_DESTROY, ANN_CLOSURE' in P.src(cf), 'scope/destroy/closure on a non-callback: warned and ignored', rel, cf.lineno,
-             'non-callback branch changed')
-    clf = py.func(MT, 'MainTransformer._apply_annotations_param_closure')
-    cl_st = [e for e in P.effects(clf) if e.kind == 'store' and e.target == 'param.closure_name']
-    r3.check(len(cl_st) == 1 and cl_st[0].under('len(closure_annotation) != 0', False), '(closure X) with argument on a callback type is rejected', rel, clf.lineno,
-             'closure_name stores: %s' % [repr(e) for e in cl_st])
+    cw = [e for e in gsa.find(SP, 'call', r'^message\.warn$') if gsa.excluded_by(SP, e, CB) and re.search(r'ANN_(SCOPE|DESTROY|CLOSURE)', e.when())]
+    cstores = gsa.find(SP, 'store', r'\.(scope|destroy_name|closure_name)$')
+    cstores = [e for e in cstores if gsa.needs(SP, e, r'ANN_(SCOPE|DESTROY|CLOSURE)\b') and 'argname' not in e.value]
+    clash = [(w_, e) for w_ in cw for e in cstores if gsa.compatible(w_, e)]
+    r3.check(len(cw) >= 1 and not clash and all(re.search('ANN_SCOPE', w_.when()) and re.search('ANN_DESTROY', w_.when()) and re.search('ANN_CLOSURE', w_.when()) for w_ in cw),
+             'scope/destroy/closure on a non-callback: warned and ignored', rel, line_of(cw), 'non-callback branch changed: warnings %s, stores alongside %s' % (show_(cw), show_([e for w_, e in clash])))
+    cl_st = gsa.find(SP, 'store', r'\.closure_name$', r'\.argname$')
+    r3.check(len(cl_st) >= 1 and all(gsa.excluded_by(SP, e, r'\.get\(ANN_CLOSURE\)$') for e in cl_st), '(closure X) with argument on a callback type is rejected', rel, line_of(cl_st),
+             'closure_name stores: %s' % show_(cl_st))
 
     # ------------------------------------------------------------------ R4 emission mapping
     r4 = ctx.rule('R4', 'stored attributes are emitted under the documented XML keys; indices through checked lookups of the same parent', floor=14)
